@@ -70,14 +70,14 @@ func (f *faultyStream) SendMsg(m any) error {
 
 type replEnv struct {
 	logTimeout time.Duration
-	leader   *storage.Engine
-	follower *storage.Engine
-	fcfg     storage.Config
-	srv      *grpc.Server
-	conn     *grpc.ClientConn
-	mgr      *replication.Manager
-	queue    *storage.IndexNotificationQueue
-	addr     string
+	leader     *storage.Engine
+	follower   *storage.Engine
+	fcfg       storage.Config
+	srv        *grpc.Server
+	conn       *grpc.ClientConn
+	mgr        *replication.Manager
+	queue      *storage.IndexNotificationQueue
+	addr       string
 }
 
 func (e *replEnv) startFollowerReplication() {
@@ -215,7 +215,9 @@ func replRun(tr *tracer.T, rng *rand.Rand, nOps int, class int, variant int) {
 	var mu sync.Mutex
 	var writes []lWrite
 	keys := [][]byte{[]byte("a"), []byte("b"), []byte("c"), []byte("flag")}
-	ctxT := func() (context.Context, context.CancelFunc) { return context.WithTimeout(context.Background(), 10*time.Second) }
+	ctxT := func() (context.Context, context.CancelFunc) {
+		return context.WithTimeout(context.Background(), 10*time.Second)
+	}
 	big := func() []byte {
 		v := make([]byte, []int{100 * 1024, 250 * 1024, 30 * 1024}[rng.Intn(3)])
 		for i := range v {
